@@ -283,9 +283,9 @@ def check_write_qua(case, ctx):
 
 
 SUBS = [
-    Sub("model", check_model, strategy=case_st, examples={"quick": 250, "thorough": 2500}, shards={"quick": 6, "thorough": 16}),
-    Sub("write-osu", check_write_osu, strategy=write_osu_case, examples={"quick": 120, "thorough": 1500}, shards={"quick": 4, "thorough": 16}),
-    Sub("write-qua", check_write_qua, strategy=write_qua_case, examples={"quick": 120, "thorough": 1500}, shards={"quick": 4, "thorough": 16}),
+    Sub("model", check_model, strategy=case_st, examples={"quick": 250, "thorough": 1200}, shards={"quick": 6, "thorough": 16}),
+    Sub("write-osu", check_write_osu, strategy=write_osu_case, examples={"quick": 120, "thorough": 700}, shards={"quick": 4, "thorough": 16}),
+    Sub("write-qua", check_write_qua, strategy=write_qua_case, examples={"quick": 120, "thorough": 700}, shards={"quick": 4, "thorough": 16}),
 ]
 
 MANIFEST = dict(
